@@ -81,13 +81,13 @@ def check(run, ctx):
     rows = {}
     for fn in ("has_ignore_directive_marker", "has_line_ignore_marker", "has_ignore_next_line_marker", "has_ignore_start_marker", "has_ignore_end_marker"):
         f = repo.func(f"{MARK}.{fn}")
-        rows[fn] = _marker_row(f)
+        rows[fn] = _marker_row(f, repo)
     want = ({"#", "//"}, {"thailint", "design-lint"}, True)
     for fn, (pref, tools, fold) in rows.items():
         f = repo.func(f"{MARK}.{fn}")
         probs = []
         # recognisers written as a chain of whole-marker literals must list the full cross product
-        pairs = {(pre, t) for s_ in str_consts(f.node) for pre in ("//", "#") for t in ("thailint", "design-lint") if s_.strip().startswith(pre + " " + t + ":")}
+        pairs = {(pre, t) for s_ in _needle_strings(repo, f) for pre in ("//", "#") for t in ("thailint", "design-lint") if s_.strip().startswith(pre + " " + t + ":")}
         if pairs and len(pairs) < 4:
             missing = sorted({(a, b) for a in ("#", "//") for b in ("thailint", "design-lint")} - pairs)
             probs.append(f"comment/tool combinations {missing} are not recognised")
@@ -225,9 +225,59 @@ def check(run, ctx):
     return __doc__
 
 
-def _marker_row(f):
+def _needle_strings(repo, f) -> list[str]:
+    """Every string a marker recogniser searches for: the literal constants of the function plus the values of composed
+    needles - `opener + "ignore"` / f"{opener}ignore" with `opener` ranging over a constant tuple (comprehension or loop)."""
+    out = list(str_consts(f.node))
+    env: dict[str, list[str]] = {}
+    for n in ast.walk(f.node):
+        gens = n.generators if isinstance(n, (ast.GeneratorExp, ast.ListComp, ast.SetComp)) else ([n] if isinstance(n, ast.For) else [])
+        for g in gens:
+            v = repo.fold(f.module, g.iter)
+            if isinstance(g.target, ast.Name) and isinstance(v, (tuple, list, set, frozenset)) and all(isinstance(x, str) for x in v):
+                env[g.target.id] = list(v)
+
+    def vals(e) -> list[str] | None:
+        if isinstance(e, ast.Constant) and isinstance(e.value, str):
+            return [e.value]
+        if isinstance(e, ast.Name):
+            if e.id in env:
+                return env[e.id]
+            v = repo.fold(f.module, e)
+            return [v] if isinstance(v, str) else None
+        if isinstance(e, ast.BinOp) and isinstance(e.op, ast.Add):
+            a, b = vals(e.left), vals(e.right)
+            return [x + y for x in a for y in b] if a is not None and b is not None else None
+        if isinstance(e, ast.JoinedStr):
+            acc = [""]
+            for part in e.values:
+                pv = vals(part.value) if isinstance(part, ast.FormattedValue) else vals(part)
+                if pv is None:
+                    return None
+                acc = [x + y for x in acc for y in pv]
+            return acc
+        if isinstance(e, ast.Call) and call_name(e) in ("lower", "casefold") and isinstance(e.func, ast.Attribute):
+            a = vals(e.func.value)
+            return [x.lower() for x in a] if a is not None else None
+        return None
+
+    for n in ast.walk(f.node):
+        needle = None
+        if isinstance(n, ast.Compare) and len(n.ops) == 1 and isinstance(n.ops[0], (ast.In, ast.NotIn)):
+            needle = n.left
+        elif isinstance(n, ast.Call) and isinstance(n.func, ast.Attribute) and n.func.attr in ("startswith", "find", "index") and n.args:
+            needle = n.args[0]
+        if needle is not None and not isinstance(needle, ast.Constant):
+            out += vals(needle) or []
+    # module-level marker tuples the function iterates over count as written-out alternatives too
+    for v in env.values():
+        out += v
+    return out
+
+
+def _marker_row(f, repo=None):
     """(comment prefixes, tool names, case-folded?) accepted by a has_*_marker function."""
-    consts = str_consts(f.node)
+    consts = _needle_strings(repo, f) if repo is not None else str_consts(f.node)
     prefixes, tools = set(), set()
     for s in consts:
         s0 = s.strip()
